@@ -1,6 +1,7 @@
 import FiberModel.DriverUtil
 import FiberModel.C11.Spec
 import FiberModel.C18.Spec
+import FiberModel.C18.Pool
 /-
 Driver for C18. Case shapes (after the id):
   asm   base url method cH rH cQ rQ cC rC cP rP jarC cUA rUA cRef rRef cTO rTO bodyKind body form files delay  implObs
@@ -141,18 +142,37 @@ def handleAsm (id : String) (f : List String) (impl : String) : Except String Ve
     if !(["none", "raw", "form", "files"].contains bodyKind) then bad "body kind" else
     let eff := if rTO > 0 then rTO else cTO
     if delay > 0 && eff > 0 && !(eff * 4 ≤ delay || delay * 4 ≤ eff) then bad "timeout too close to the delay" else
+    -- the request object comes from the pool: an earlier user (the harness' pollution round) configured it,
+    -- sent it and released it; the case's setters are applied to what `Reset` left
+    let setOps (add set : Bytes → Bytes → Setter) (ops : List Op) : List Setter :=
+      ops.map fun o => match o with
+        | .add k v => add k v
+        | .set k v => set k v
+    let pollution : List Setter :=
+      [.setClient 1, .addHeader (b "X-Leak") (b "h"), .setHeader (b "X-Leak2") (b "h2"), .addParam (b "leak") (b "p"),
+       .setParam (b "x") (b "leak"), .setCookie (b "leakc") (b "v"), .setCookie (b "c1") (b "leak"),
+       .setPathParam (b "id") (b "LEAK"), .setPathParam (b "missing") (b "LEAK"), .setPathParam (b "a") (b "LEAK"),
+       .setUserAgent (b "leak-agent"), .setReferer (b "http://leak/"), .setTimeout 7000, .setMaxRedirects 3, .setContext,
+       .addFormData (b "leakf") (b "v"), .addFile (b "leakfile") (b "leak.txt") (b "leak"),
+       .setURL (b "http://leak.test/leak/:missing?lq=1"), .setMethod (b "POST")]
+    let caseSetters : List Setter :=
+      [.setClient 0] ++ setOps .addHeader .setHeader rH ++ setOps .addParam .setParam rQ ++
+      rC.map (fun kv => .setCookie kv.1 kv.2) ++ rP.map (fun kv => .setPathParam kv.1 kv.2) ++
+      (if rUA.isEmpty then [] else [.setUserAgent rUA]) ++ (if rRef.isEmpty then [] else [.setReferer rRef]) ++
+      (if rTO > 0 then [.setTimeout rTO] else []) ++
+      (match bodyKind with
+        | "raw" => [.setRawBody bodyB]
+        | "form" => setOps .addFormData .setFormData formOps
+        | "files" => setOps .addFormData .setFormData formOps ++ fileT.map fun t => .addFile t.1 t.2.1 t.2.2
+        | _ => []) ++ [.setURL url, .setMethod method]
+    let reqObj := configure caseSetters (resetReq (configure pollution newReq))
     let cfg : Config := {
-      baseURL := base, url := url, method := method,
+      baseURL := base, url := reqObj.url, method := reqObj.method,
       client := { headers := applyOps cH, params := applyOps cQ, cookies := mapOf cC, pathParams := mapOf cP,
                   userAgent := cUA, referer := cRef, timeout := cTO },
-      request := { headers := applyReqHeaderOps rH, params := applyOps rQ, cookies := mapOf rC, pathParams := mapOf rP,
-                   userAgent := rUA, referer := rRef, timeout := rTO },
+      request := levelOf reqObj,
       jar := mapOf jarC,
-      body := match bodyKind with
-        | "raw" => .raw bodyB
-        | "form" => .form (applyOps formOps)
-        | "files" => .files (applyOps formOps) fileT
-        | _ => .none }
+      body := bodyOf reqObj }
     let sp := split2 url 63
     let uri0 := if hasProtocol sp.1 then sp.1 else base ++ sp.1
     let urlArgs := (parseArgsNV (split2 sp.2 35).1).map fun a => (a.key, a.value)
@@ -295,14 +315,46 @@ def parseJarObs (op : JarOp) (s : String) : Option JarObs :=
   | .resp .. => if s.startsWith "r=" then (unPart ((s.drop 2).toString)).map .header else none
   | _ => if s.startsWith "g=" then (parseCookieList ((s.drop 2).toString)).map .cookies else none
 
+/-- the sentence fixes WHICH cookies a lookup returns / a request carries, not their order: `Get` results are
+    compared as multisets; a Cookie header must carry exactly one pair per name among the matching cookies, with the
+    value of one of them (two matching cookies of one name and different paths share a header slot) -/
+def cookieKey (c : Cookie) : Bytes := c.name ++ [0] ++ c.path ++ [0] ++ c.value
+
+def sortCookies (xs : List Cookie) : List Cookie := xs.mergeSort fun p q => !bytesLt (cookieKey q) (cookieKey p)
+
+def headerPairs (h : Bytes) : List (Bytes × Bytes) :=
+  if h.isEmpty then [] else (splitOn h 59).map fun seg => C11.cutEq (trimLeft seg 32)
+
+def headerOK (h : Bytes) (m : List Cookie) : Bool :=
+  let ps := headerPairs h
+  let names := (m.map (·.name)).eraseDups
+  ps.length == names.length && ps.all (fun p => names.contains p.1) &&
+  names.all fun n => match ps.find? (·.1 = n) with
+    | some p => m.any fun c => c.name == n && c.value == p.2
+    | none => false
+
+/-- does the observation show exactly the cookies `want` (what the lookup of this operation must yield)? -/
+def obsShows (op : JarOp) (o : JarObs) (want : List Cookie) : Bool :=
+  match op, o with
+  | .get .., .cookies xs => sortCookies xs == sortCookies (want.map fun c => { c with expiry := none })
+  | .getRelease .., .cookies xs => sortCookies xs == sortCookies (want.map fun c => { c with expiry := none })
+  | .resp .., .header h => headerOK h want
+  | .set .., .done => true
+  | .setKV .., .done => true
+  | .releaseJar, .done => true
+  | _, _ => false
+
 /-- the oracle over the whole history: the first failure that is NOT what the reversed path test
     yields (a violation), and whether some step failed in exactly the K1 way -/
 def specJarAll : AbsJar → List (Nat × JarOp) → List JarObs → Option String × Bool
   | _, [], [] => (none, false)
   | j, (now, op) :: ops, o :: os =>
     let rest := specJarAll (absStep now j op) ops os
-    if o = stripExp (specObs now j op) then rest
-    else if o = stripExp (implObsOf now j op) then (rest.1, true)
+    let (want, wantImpl) : List Cookie × List Cookie := match lookupOf op with
+      | some (host, path) => (specGet j host path now, implGet j host path now)
+      | none => ([], [])
+    if obsShows op o want then rest
+    else if obsShows op o wantImpl then (rest.1, true)
     else (some (match op with
         | .resp .. => "jar-sends-exactly-the-matching-cookies"
         | _ => "jar-returns-exactly-the-matching-cookies"), rest.2)
